@@ -279,7 +279,9 @@ fn sec_case(c: &SecCase) -> Result<(), Failure> {
 			let mut track = mgr.add_sub_track(b).map_err(|_| Failure::simple("setup", "track"))?;
 			let mut measure = |mgr: &mut Mgr, rate: u32| -> Result<f64, Failure> {
 				// a sine at the cutoff frequency, sampled at the device rate
-				let n = (rate as f64 * 0.06) as usize;
+				// (long enough for 8 periods to settle and 8 more to be measured)
+				let period = rate as f64 / cutoff;
+				let n = ((rate as f64 * 0.06) as usize).max((period * 16.0).ceil() as usize + 32);
 				let frames: Arc<[Frame]> = (0..n).map(|i| Frame::from_mono(0.5 * (std::f64::consts::TAU * cutoff * i as f64 / rate as f64).sin() as f32)).collect::<Vec<_>>().into();
 				track
 					.play(StaticSoundData {
@@ -294,7 +296,9 @@ fn sec_case(c: &SecCase) -> Result<(), Failure> {
 					out.extend(cb(mgr, 256)?);
 				}
 				// steady state: second half
-				let seg: Vec<f32> = out.chunks(2).map(|s| s[0]).skip(n / 2).take(n / 2 - 8).collect();
+				// steady state: a whole number of periods from the second half
+				let take = (((n / 2 - 8) as f64 / period).floor() * period).round() as usize;
+				let seg: Vec<f32> = out.chunks(2).map(|s| s[0]).skip(n / 2).take(take.max(1)).collect();
 				let rms = (seg.iter().map(|x| (*x as f64).powi(2)).sum::<f64>() / seg.len() as f64).sqrt();
 				Ok(20.0 * (rms / (0.5 / 2f64.sqrt())).log10())
 			};
@@ -327,7 +331,7 @@ impl Property for C16 {
 		200
 	}
 	fn cases(&self, tier: Tier) -> u64 {
-		tier.pick(30_000, 600_000)
+		tier.pick(300_000, 3_000_000)
 	}
 
 	fn run(&self, tape: &[u32], ctx: &mut Ctx) -> CaseResult {
